@@ -85,6 +85,11 @@ claimed = {
    text="Every enumerated document is validated, from a fresh parse each time, under each rule set. Oracle: the errors of the full set are the multiset union of the errors each rule reports alone, every error is tagged with the name of the rule that ran, each rule reports the same errors alone and inside the set, the default set equals the explicit list of all 27 standard rules (also in reverse order), each 'WithoutSuggestions' variant equals its standard rule with the ' Did you mean …?' suffix removed and never suggests; thorough: pairs and leave-one-out sets report exactly their members' errors.",
    note="Trusted: the list of exported rules (compile-time references to validator/rules). Subsets beyond singletons, pairs, leave-one-out and the full set are not enumerated.",
    ref="DESIGN.md §4 C18"),
+ "C08": dict(
+   technique=T + "every document of 15 validation-kit profiles (~55k: valid skeletons with every filling of their holes) against a rich and a minimal schema, and every type-blind document (grammar sentences ≤7/8 tokens × every assignment of 10 names to ≤4 positions); verdict of the real Validate compared in both directions with a reference validator written from the specification's formal algorithms (ref/refvalid)",
+   text="For every enumerated (schema, document) the error list of the real Validate must be empty exactly when ref/refvalid — the rules of specification §5 as plain recursive functions (FieldsInSetCanMerge, SameResponseShape, IsVariableUsageAllowed with location defaults, literal coercion table with 32-bit Int, repeatable directives, possible-types intersection from the definitions, oneOf, introspection depth, root existence) — finds no broken rule. The library validates against a schema instance shared by all cases of a worker; the reference reads a second, pristine instance, so state leaking into the shared schema shows up as later disagreements. Rule names on both sides are recorded for diagnosis only.",
+   note="Trusted: ref/refvalid (its disagreements with the library on the unchanged tree were each traced to a library defect and repaired, or are undecided by design), the loader for the schema structure (C07). Undecided: numeric literals beyond 64 bits, @skip/@include on subscription roots, fragment variables.",
+   ref="DESIGN.md §4 C08"),
 }
 checks = []
 for i in ids:
